@@ -9,11 +9,15 @@ patch applies to HEAD? -> run `./check <id> quick` for the broken property and e
 recorded earlier, with KVERIF_REPO pointing at the scratch tree and a private KVERIF_ROOT.
 Results go to seeded/<name>/meta.json under "at_head".
 """
-import glob, json, os, shutil, subprocess, sys, time
+import glob, hashlib, json, os, shutil, subprocess, sys, time
 
-WT = "/tmp/mut/rerun"
-TGT = "/tmp/mut/rerun-htarget"
-ROOT = "/tmp/mut/rerun-root"
+# KVERIF_RERUN_SNAP: a frozen copy of /verif (check, harness, KNOWN_FINDINGS.txt, replays) to run from, so that
+# edits made to /verif/harness while a long re-run is going do not reach it half-way
+SNAP = os.environ.get("KVERIF_RERUN_SNAP", "/verif")
+TAG = os.environ.get("KVERIF_RERUN_TAG", "")  # several re-runs side by side: one tag each
+WT = "/tmp/mut/rerun" + TAG
+TGT = "/tmp/mut/rerun-htarget" + TAG
+ROOT = "/tmp/mut/rerun-root" + TAG
 
 def sh(cmd, cwd=None, env=None, timeout=7200):
     e = dict(os.environ)
@@ -51,10 +55,10 @@ def main():
                     seen.append(cid)
                     shutil.rmtree(ROOT, ignore_errors=True)
                     os.makedirs(ROOT)
-                    shutil.copy("/verif/KNOWN_FINDINGS.txt", f"{ROOT}/KNOWN_FINDINGS.txt")
-                    shutil.copytree("/verif/replays/known", f"{ROOT}/replays/known")
+                    shutil.copy(f"{SNAP}/KNOWN_FINDINGS.txt", f"{ROOT}/KNOWN_FINDINGS.txt")
+                    shutil.copytree(f"{SNAP}/replays/known", f"{ROOT}/replays/known")
                     t0 = time.time()
-                    rc2, o = sh(f"/verif/check {cid} quick", cwd="/verif", env={"KVERIF_REPO": WT, "CARGO_TARGET_DIR": TGT, "KVERIF_ROOT": ROOT})
+                    rc2, o = sh(f"{SNAP}/check {cid} quick", cwd=SNAP, env={"KVERIF_REPO": WT, "CARGO_TARGET_DIR": TGT, "KVERIF_ROOT": ROOT})
                     lines = [l[:400] for l in o.splitlines() if l.startswith("VIOLATION") or l.startswith("NOTE")]
                     at["checks"][cid] = {"exit": rc2, "detected": rc2 == 1, "wall_s": round(time.time() - t0, 1), "lines": lines[:3]}
             meta["at_head"] = at
@@ -65,7 +69,6 @@ def main():
         shutil.rmtree(WT, ignore_errors=True)
         shutil.rmtree(TGT, ignore_errors=True)
         shutil.rmtree(ROOT, ignore_errors=True)
-        for p in glob.glob("/tmp/kverif-harness-*"):
-            shutil.rmtree(p, ignore_errors=True)
+        shutil.rmtree("/tmp/kverif-harness-" + hashlib.md5((WT + "\n").encode()).hexdigest()[:12], ignore_errors=True)
 
 main()
